@@ -56,6 +56,7 @@ type multiEnv struct {
 	nss       []string
 	eks       [][]byte
 	keyGroups int
+	quiet     int // index of an operator that receives no events (-1: none)
 	maxSize   int
 	location  string
 	store     *ophar.ShadowStore
@@ -110,7 +111,7 @@ func (e *multiEnv) wit(extra ...any) map[string]any {
 
 func newMultiEnv(c *lib.Ctx, faults bool) *multiEnv {
 	r := c.R
-	e := &multiEnv{c: c, r: r, vg: &lib.ValueGen{Writer: "m"}, byID: map[string]*opSlot{}, policy: map[string]ntPolicy{}, ntCalls: map[string]int{},
+	e := &multiEnv{c: c, r: r, quiet: -1, vg: &lib.ValueGen{Writer: "m"}, byID: map[string]*opSlot{}, policy: map[string]ntPolicy{}, ntCalls: map[string]int{},
 		vector: map[string]int64{}, faults: faults, ackShadow: map[string]map[string]ophar.KeyShadow{}}
 	for i := 0; i < 1+r.Intn(2); i++ {
 		e.senders = append(e.senders, fmt.Sprintf("sr%d", i))
@@ -489,12 +490,18 @@ func (e *multiEnv) history(n int) {
 			continue
 		}
 		key := lib.Pick(e.r, e.keys)
+		if e.quiet >= 0 && e.quiet < len(e.ops) && e.owner(key) == e.ops[e.quiet] {
+			continue // skewed load: this operator gets no events, so it keeps the tables it restored
+		}
 		e.stepKeyed(key, e.genProgram(e.owner(key)))
 	}
 }
 
 func (e *multiEnv) touchAll() {
 	for _, k := range e.keys {
+		if e.quiet >= 0 && e.quiet < len(e.ops) && e.owner(k) == e.ops[e.quiet] {
+			continue
+		}
 		e.stepKeyed(k, nil)
 	}
 	// flush pending batches
@@ -616,8 +623,23 @@ func c09Operators(c *lib.Ctx) {
 		n = e.keyGroups
 	}
 	e.deployAssembly(n, jc, false) // operators now share the old operators' tables
-	e.touchAll()
+	if r.Intn(2) == 0 {
+		// skewed load: one operator stays quiet (no flush, no compaction: it goes on referencing the shared tables
+		// it restored) while its neighbours work on, compact the shared tables away and ask whether they may delete them
+		e.quiet = r.Intn(n)
+		e.logOp("operator #%d of the new assembly receives no events from now on", e.quiet)
+		c.Feat("skewed_load_cases", 1)
+	} else {
+		e.touchAll()
+	}
 	e.checkFiles("after rescale")
+	// Before the new assembly's first checkpoint every operator still depends on the checkpoints it was restored
+	// from: the working operators flush, compact the shared tables away and their table objects are collected
+	// while the others' only claim on those tables is the restored (merged) checkpoint.
+	e.history(40 + r.Intn(120))
+	lib.DKVIdle(ophar.Watchdog)
+	lib.GCSettle()
+	e.checkFiles("after rescale, more events and forced GC, before the first checkpoint of the new assembly")
 	for round := 2 + r.Intn(4); round > 0; round-- {
 		e.history(20 + r.Intn(60))
 		jc = e.jobCheckpoint()
